@@ -31,7 +31,12 @@ CLAIMED = {
    text="Machine-checked Coq theorems over the writer model: a name, archive comment, local extra data (incl. the 20-byte "
         "ZIP64 reservation) or central extra data (incl. the ZIP64 block) that does not fit its 16-bit length field is "
         "rejected with an error and the state unchanged (fixes D1/D11), and when the guards pass the length fields of "
-        "the central record hold the true lengths (no truncation).  Whole-archive validity is carried by the "
+        "the central record hold the true lengths (no truncation); the local header the writer leaves behind (after "
+        "patching) and the central record it emits for the same stored entry are decoded by two different parsers of the "
+        "reader model to the same raw and decoded name, UTF-8 flag (set exactly for non-ASCII names), encryption flag, "
+        "method, timestamp, CRC-32 and sizes; with C01's theorems the emitted directory and end records point exactly at "
+        "the records they describe (the reader walks them back) and ZIP64 records appear iff needed (C08).  Whole-archive "
+        "validity as judged by INDEPENDENT parsers is carried by the "
         "correspondence: writer programs mixing plain, extra-data, aligned, ZipCrypto, raw-copied, appended, directory and "
         "symlink entries and lengths at 65535/65536/65537/70000 are run on the crate and on the byte-exact writer model; "
         "every archive a successful finish returns is judged by an independent strict validator written from APPNOTE "
